@@ -111,7 +111,9 @@ impl Scenario for Swarm {
                 }
                 30..=34 => SStep::SessionAdvance { s: rng.below(4) as u8, frames: rng.range(1, 4) as u8 },
                 35 => SStep::SessionCut { s: rng.below(4) as u8, reset: rng.chance(1, 2) },
-                36..=37 => SStep::Restart { n: nd, kind: if crashy { rng.below(3) as u8 } else { 0 } },
+                // 0 orderly shutdown, 1 crash keeping all writes, 2 crash keeping synced writes only,
+                // 3 the process ends without shutting the actor down but destructors run
+                36..=37 => SStep::Restart { n: nd, kind: if crashy { rng.below(4) as u8 } else { *rng.pick(&[0u8, 0, 3]) } },
                 _ => SStep::Advance { ms: *rng.pick(&[10u32, 499, 501, 1500]) },
             };
             steps.push(s);
@@ -171,7 +173,7 @@ impl Scenario for Swarm {
     }
 
     fn rule(&self) -> String {
-        "A run is 8-60 steps over 2-5 nodes with clock skew within ±4 min (in a quarter of the runs with three or more nodes one of them holds the document read-only: it cannot write but receives and relays): in half of the runs most nodes first write 4-40 distinct keys of one length whose broadcasts are all lost (so that sessions have dozens of entries to move and a cut leaves them half way); then local writes and prefix deletions, broadcast of each local insert to the other nodes through SimNet (deliver in any order, drop, duplicate, partition/heal), sessions between pairs advanced frame by frame and cut (EOF/reset) at any frame, clean restarts and (in half of the runs) crashes with loss model L1/L2, virtual-time advances; then a closing phase of complete sessions along a random spanning tree until one round is silent (budget nodes+1 rounds). Non-trivial: at least one fault kind fired.".into()
+        "A run is 8-60 steps over 2-5 nodes with clock skew within ±4 min (in a quarter of the runs with three or more nodes one of them holds the document read-only: it cannot write but receives and relays): in half of the runs most nodes first write 4-40 distinct keys of one length whose broadcasts are all lost (so that sessions have dozens of entries to move and a cut leaves them half way); then local writes and prefix deletions, broadcast of each local insert to the other nodes through SimNet (deliver in any order, drop, duplicate, partition/heal), sessions between pairs advanced frame by frame and cut (EOF/reset) at any frame, orderly restarts, restarts in which the actor is dropped without a shutdown (the store's destructor runs) and (in half of the runs) crashes with loss model L1/L2, virtual-time advances; then a closing phase of complete sessions along a random spanning tree until one round is silent (budget nodes+1 rounds). Non-trivial: at least one fault kind fired.".into()
     }
 }
 
@@ -509,6 +511,16 @@ async fn run(plan: &SwarmPlan, cx: &mut Cx, big_skew: bool) -> Res {
                         let store = node.stop().await?;
                         drop(store);
                         cx.fault("clean_restart");
+                        nodes[i].disk.image()
+                    }
+                    3 => {
+                        // the actor is dropped, not shut down: the store's destructor runs and must
+                        // leave everything acknowledged in the file
+                        node.task.abort();
+                        drop(node);
+                        barrier().await;
+                        barrier().await;
+                        cx.fault("restart_by_dropping_the_store");
                         nodes[i].disk.image()
                     }
                     k => {
